@@ -1,3 +1,5 @@
+import FrappyProofs.Lemmas.Dispatch
 import FrappyProofs.Lemmas.Logging
 import FrappyProofs.Lemmas.Rotate
+import FrappyProofs.Props.C04
 import FrappyProofs.Props.C20
